@@ -17,6 +17,10 @@
 
 namespace ses {
 
+/** Optional time stamp source (virtual clock): when set, every transcript line is prefixed by "@<microseconds> ". */
+static long long (*lineStamp)() = nullptr;
+inline std::string stamped(const std::string& l) { if (!lineStamp) return l; return "@" + std::to_string(lineStamp()) + " " + l; }
+
 /** Blocking input stream buffer fed by the script driver. */
 class InBuf : public std::streambuf {
 public:
@@ -61,7 +65,7 @@ protected:
                 lines.push_back(cur);
                 if (cur.rfind("bestmove", 0) == 0) nBest++;
                 if (cur == "readyok") nReady++;
-                if (fd >= 0) { std::string o = cur + "\n"; if (::write(fd, o.data(), o.size())) {} }
+                if (fd >= 0) { std::string o = stamped(cur) + "\n"; if (::write(fd, o.data(), o.size())) {} }
                 cur.clear();
                 cv.notify_all();
             } else cur += s[i];
@@ -82,7 +86,7 @@ inline int runScriptInChild(const std::vector<std::string>& script, int outFd, i
         UCIProtocol uci(is, os);
         std::thread proto([&]() { uci.mainLoop(false); });
         std::thread eng([&]() { uci.engineThread.mainLoop(); });
-        auto marker = [&](const std::string& s) { if (outFd >= 0) { std::string o = s + "\n"; if (::write(outFd, o.data(), o.size())) {} } };
+        auto marker = [&](const std::string& s) { if (outFd >= 0) { std::string o = stamped(s) + "\n"; if (::write(outFd, o.data(), o.size())) {} } };
         for (const std::string& line : script) {
             if (line.rfind("@await bestmove", 0) == 0) {
                 std::unique_lock<std::mutex> L(ob.m);
